@@ -2,6 +2,7 @@ import PoseVerif.Driver.Codec
 import PoseVerif.Model.Cache
 import PoseVerif.Model.Concurrent
 import PoseVerif.Model.JS
+import PoseVerif.Driver.Masked
 /-!
 `posedriver`: one JSON request per input line, one JSON answer per output line.
 Runs the executable definitions of the model (the same ones the theorems are about).
@@ -147,6 +148,7 @@ def handle (j : Json) : R Json := do
         ("fps", fpsToJson body.fps), ("frames", natJ body.frames), ("people", natJ body.people), ("points", natJ body.points), ("dims", natJ body.dims),
         ("data", f32Arr body.data), ("conf", f32Arr body.conf)])
     | none => pure (Json.mkObj [("ok", Json.bool false), ("class", Json.str clsName)])
+  | "masked_prog" => runMaskedProg j
   | "history" => runHistory j
   | "schedule" => runSchedule j
   | _ => throw s!"unknown op {op}"
